@@ -264,13 +264,16 @@ PROPS = {
     "C15": dict(
         level="other",
         bounded=_both(_mod("c15"), _mod("pure")),
-        lemmas=["CoveredUpTo.snoc", "MCS.bridge", "MCS.bridge2"],
-        trusted=["TB-tac", "TB-sat", "TB-py"],
+        lemmas=["CoveredUpTo.snoc", "MCS.bridge", "MCS.bridge2", "CnfHolds.snoc"],
+        trusted=["TB-tac", "TB-sat", "TB-py", "TB-zexpr"],
         assumed=[
-            "the Tseitin tactic of z3 and goal2intcnf produce clause lists denoting the formula (bounded: truth tables in module c15)",
+            "TB-tac: the Tseitin tactic returns a goal in CNF format (clauses of literals) that is equisatisfiable with the formula over the formula's atoms (bounded: truth tables of the resulting integer CNFs in module c15)",
             "RC2 / GVC / BLOCK (see C03)",
         ],
-        explanation="Engine P proves Conditional(_z3).make_* (the formulas handed to the Tseitin tactic), remove_supersets (result = "
+        explanation="Engine P proves Conditional(_z3).make_* (the formulas handed to the Tseitin tactic); the conversion of the tactic's "
+        "goal to an integer CNF -- constant_value, expr_to_signed_id, goal2intcnf: for every assignment of truth values to pool ids the integer "
+        "CNF holds exactly when every clause of the goal is true, where constants never take an id's truth value (the defect repaired by the "
+        "first fix: commit is a failing obligation of this contract); remove_supersets (result = "
         "the inclusion-minimal sets, each once, as duplicate-free lists) and the enumeration loop of "
         "OptimizerRC2.minimal_correction_subsets (every recorded set is the violated set of a world, every world violates all of some "
         "recorded set; lemmas derive that the result is exactly the family of minimal correction sets); the integer CNFs and the two "
